@@ -14,7 +14,7 @@ ASSUME Reverse("hypernym") = "hyponym" /\ Reverse("antonym") = "antonym"
 
 Base == [id |-> "l", forms |-> <<>>, frames |-> <<>>,
          entries |-> << <<"w1", "cat">>, <<"w2", "dog">> >>,
-         senses |-> << <<"w1-1", "w1", "s1">>, <<"w2-1", "w2", "s2">> >>,
+         senses |-> << <<"w1-1", "w1", "s1", 1>>, <<"w2-1", "w2", "s2", 2>> >>,
          synsets |-> << <<"s1", "i1", "n", FALSE, <<"d1">>, <<>>>>,
                         <<"s2", "", "v", FALSE, <<"d2">>, <<>>>> >>,
          srels |-> <<>>, ssrels |-> <<>>]
